@@ -5,9 +5,9 @@ package main
 
 import (
 	"context"
+	"database/sql"
 	"math"
 	"strings"
-	"database/sql"
 	"time"
 
 	"github.com/kishyassin/goframe/dataframe"
@@ -174,6 +174,28 @@ func runSqlwCtx(sc sqlwScenario, failAt int, cancel bool) (string, []recCall) {
 
 // runSqlwCtx2: keep=true — the context is cancelled while call failAt is in flight, and that call succeeds
 func runSqlwCtx2(sc sqlwScenario, failAt int, cancel, keep bool) (string, []recCall) {
+	// the caller's option struct (its TypeMap above all) is reused from export to export: an earlier export of ANOTHER
+	// frame with the same column names but other kinds of value, made with the very same options, must leave nothing
+	// behind in them that changes this export
+	if sc.hasOpts && sc.opts.TypeMap != nil && sc.df != nil {
+		warm := dataframe.NewDataFrame()
+		for name, c := range sc.df.Columns {
+			var cell any = "w"
+			for _, v := range c.Data {
+				if _, isStr := v.(string); isStr {
+					cell = 1.5
+				}
+				if v != nil {
+					break
+				}
+			}
+			warm.Columns[name] = &dataframe.Column[any]{Name: name, Data: []any{cell}}
+		}
+		wst := &dbState{failAt: -1, faultKind: faultKindNext}
+		wdb := openFake(wst)
+		guard(func() error { return warm.ToSQL(wdb, sc.table, sc.optList()...) })
+		wdb.Close()
+	}
 	st := &dbState{failAt: -1, exists: sc.exists, faultKind: faultKindNext, cancelKeep: keep}
 	ctx, cancelFn := context.WithCancel(context.Background())
 	defer cancelFn()
